@@ -56,6 +56,11 @@ def rand_scenario(rng, max_hosts=5, big=False, like=None):
     os_l = [f"os{i}" for i in range(nos)]
     svc_l = [f"s{i}" for i in range(nsvc)]
     proc_l = [f"p{i}" for i in range(nproc)]
+    if like is None and rng.random() < 0.25:
+        # the three name lists are separate name spaces: the same word may name an OS, a service and a process
+        os_l = [f"n{i}" for i in range(nos)]
+        svc_l = [f"n{i}" for i in reversed(range(nsvc))]
+        proc_l = [f"n{i}" for i in range(nproc)]
     hosts = {}
     for s in range(1, n):
         for h in range(subnets[s]):
